@@ -84,7 +84,7 @@ def main():
         with open(os.path.join(outdir, "corpus", "seed{:02d}".format(i)), "wb") as fh:
             fh.write(blob)
     argv = [sys.argv[0], "-runs={}".format(runs + 10), "-seed={}".format(seed if seed else 1), "-max_len=8192", "-timeout=600",
-            "-print_final_stats=0", "-verbosity=0", os.path.join(outdir, "corpus")]
+            "-print_final_stats=0", "-verbosity=0", "-artifact_prefix={}/".format(outdir), os.path.join(outdir, "corpus")]
     atheris.Setup(argv, counted)
     atheris.Fuzz()
     export()
